@@ -632,7 +632,7 @@ static void vbi_proxyd_forward_data( int dev_idx )
 
       if (res > 0)
       {
-         assert(p_buf->line_count < p_buf->max_lines);
+         assert(p_buf->line_count <= p_buf->max_lines);
          pthread_mutex_lock(&proxy.clnt_mutex);
          pthread_mutex_lock(&p_proxy_dev->queue_mutex);
 
